@@ -48,8 +48,12 @@ def _values(cid_id, cid, row):
     if not isinstance(row, (list, tuple)) or len(row) != len(cid.field_names):
         return None
     result = []
+    is_fixed = getattr(cid.data_format, "format", None) == "fixed"
     for index, cell in enumerate(row):
         pool = _interned.setdefault((cid_id, index), {})
+        if is_fixed and isinstance(cell, str):
+            # a writer pads fixed values with trailing blanks: "2" and "2 " are the same cell
+            cell = cell.rstrip(" ")
         try:
             result.append(pool.setdefault(cell, len(pool) + 1))
         except TypeError:
